@@ -909,6 +909,9 @@ class SimNet:
 
     def next_conn(self):
         req = self.requests[self.next]
+        if req.get('files'):
+            # files rewritten on disk before this request arrives
+            self.world.fs.files.update(req['files'])
         conn = _Conn(self, self.next, build_request_bytes(req))
         self.conns.append(conn)
         fault = (req.get('fault') or {}).get('kind')
